@@ -112,11 +112,15 @@ impl CommitQueue {
 	fn enqueue(&self, batch: Arc<CommitBatch>) {
 		let ptrs = self.head_tail.load(Ordering::Acquire);
 		let (head, tail) = self.unpack(ptrs);
+		#[cfg(surrealkv_verif)]
+		crate::verif::yieldp::yield_point("enq.loaded", head as u64, tail as u64);
 
 		// Check if queue is full
 		if tail.wrapping_add(MAX_CONCURRENT_COMMITS as u32) == head {
 			// Queue is full. This should never be reached because the semaphore
 			// limits the number of concurrent operations.
+			#[cfg(surrealkv_verif)]
+			crate::verif::yieldp::yield_point("enq.full", head as u64, tail as u64);
 			panic!("commit queue overflow - should not be reached");
 		}
 
@@ -127,15 +131,21 @@ impl CommitQueue {
 		while !slot.load(Ordering::Acquire).is_null() {
 			// Another thread is still cleaning up the tail, so the queue is
 			// actually still full.
+			#[cfg(surrealkv_verif)]
+			crate::verif::yieldp::yield_point("enq.spin", head as u64, 0);
 			std::hint::spin_loop();
 		}
 
 		// The head slot is free
 		let batch_ptr = Arc::into_raw(batch);
 		slot.store(batch_ptr as *mut CommitBatch, Ordering::Release);
+		#[cfg(surrealkv_verif)]
+		crate::verif::yieldp::yield_point("enq.stored", head as u64, 0);
 
 		// Increment head
 		self.head_tail.fetch_add(1 << DEQUEUE_BITS, Ordering::Release);
+		#[cfg(surrealkv_verif)]
+		crate::verif::yieldp::yield_point("enq.done", head as u64, 0);
 	}
 
 	// Multi-consumer dequeue - removes the earliest enqueued Batch, if it is
@@ -144,6 +154,8 @@ impl CommitQueue {
 		loop {
 			let ptrs = self.head_tail.load(Ordering::Acquire);
 			let (head, tail) = self.unpack(ptrs);
+			#[cfg(surrealkv_verif)]
+			crate::verif::yieldp::yield_point("deq.loaded", head as u64, tail as u64);
 
 			if tail == head {
 				// Queue is empty
@@ -153,6 +165,8 @@ impl CommitQueue {
 			let slot_idx = (tail & (MAX_CONCURRENT_COMMITS as u32 - 1)) as usize;
 			let slot = &self.slots[slot_idx];
 			let batch_ptr = slot.load(Ordering::Acquire);
+			#[cfg(surrealkv_verif)]
+			crate::verif::yieldp::yield_point("deq.slot", tail as u64, batch_ptr.is_null() as u64);
 
 			if batch_ptr.is_null() {
 				// The batch is not ready to be dequeued, or another thread has
@@ -162,6 +176,8 @@ impl CommitQueue {
 
 			// Check if batch is applied (safely through raw pointer)
 			let is_applied = unsafe { (*batch_ptr).is_applied() };
+			#[cfg(surrealkv_verif)]
+			crate::verif::yieldp::yield_point("deq.checked", tail as u64, is_applied as u64);
 			if !is_applied {
 				return None;
 			}
@@ -172,13 +188,19 @@ impl CommitQueue {
 				.compare_exchange_weak(ptrs, new_ptrs, Ordering::Release, Ordering::Relaxed)
 				.is_ok()
 			{
+				#[cfg(surrealkv_verif)]
+				crate::verif::yieldp::yield_point("deq.cas_ok", tail as u64, 0);
 				// We now own slot.
 				slot.store(std::ptr::null_mut(), Ordering::Release);
+				#[cfg(surrealkv_verif)]
+				crate::verif::yieldp::yield_point("deq.cleared", tail as u64, 0);
 
 				let batch = unsafe { Arc::from_raw(batch_ptr) };
 				return Some(batch);
 			}
 			// CAS failed, retry the whole loop
+			#[cfg(surrealkv_verif)]
+			crate::verif::yieldp::yield_point("deq.cas_fail", tail as u64, 0);
 		}
 	}
 }
@@ -251,6 +273,8 @@ impl CommitPipeline {
 	}
 
 	pub(crate) async fn commit(&self, mut batch: Batch, sync: bool, start_seq: u64) -> Result<()> {
+		#[cfg(surrealkv_verif)]
+		crate::verif::yieldp::yield_point("commit.enter", start_seq, batch.count() as u64);
 		if self.shutdown.load(Ordering::Acquire) {
 			return Err(Error::PipelineStall);
 		}
@@ -265,11 +289,17 @@ impl CommitPipeline {
 		// Check write stall BEFORE acquiring any locks.
 		// This ensures stalled writers wait here without blocking others.
 		self.write_stall.check().await?;
+		#[cfg(surrealkv_verif)]
+		crate::verif::yieldp::yield_point("commit.stall_ok", 0, 0);
 
 		// Acquire permit for flow control
 		let _permit = self.commit_sem.acquire().await.map_err(|_| Error::PipelineStall)?;
+		#[cfg(surrealkv_verif)]
+		crate::verif::yieldp::yield_point("commit.sem_acquired", 0, 0);
 
 		let (commit_batch, complete_rx) = CommitBatch::new(batch.count());
+		#[cfg(surrealkv_verif)]
+		crate::verif::yieldp::yield_point("commit.want_lock", 0, batch.count() as u64);
 
 		// === CRITICAL SECTION under write_mutex ===
 		//
@@ -295,13 +325,19 @@ impl CommitPipeline {
 		// harmless: oracle.check/publish are idempotent on the same key.
 		let (processed_batch, allocated_seq): (Batch, u64) = {
 			let _guard = self.write_mutex.lock();
+			#[cfg(surrealkv_verif)]
+			crate::verif::yieldp::yield_point("commit.locked", 0, 0);
 
 			// Validate against the oracle. No state has changed yet; on
 			// failure `?` simply returns the error to the caller.
 			self.oracle.check(batch.entries.iter().map(|e| e.key.as_slice()), start_seq)?;
+			#[cfg(surrealkv_verif)]
+			crate::verif::yieldp::yield_point("commit.checked", 0, 0);
 
 			let count = batch.count() as u64;
 			let seq_num = self.log_seq_num.fetch_add(count, Ordering::SeqCst);
+			#[cfg(surrealkv_verif)]
+			crate::verif::yieldp::yield_point("commit.seq_allocated", seq_num, count);
 
 			// Publish the oracle entries with the allocated seq.
 			//
@@ -320,17 +356,23 @@ impl CommitPipeline {
 				oldest_active,
 			);
 
+			#[cfg(surrealkv_verif)]
+			crate::verif::yieldp::yield_point("commit.oracle_published", seq_num, count);
 			// Stamp the commit_batch & batch.
 			commit_batch.set_seq_num(seq_num);
 			batch.set_starting_seq_num(seq_num);
 
 			// Enqueue (single producer, same critical section as seq alloc).
 			self.pending.enqueue(Arc::clone(&commit_batch));
+			#[cfg(surrealkv_verif)]
+			crate::verif::yieldp::yield_point("commit.enqueued", seq_num, count);
 
 			// WAL + VLog (serialized under lock).
 			match self.env.write(&batch, seq_num, sync) {
 				Ok(processed) => (processed, seq_num),
 				Err(e) => {
+					#[cfg(surrealkv_verif)]
+					crate::verif::yieldp::yield_point("commit.wal_failed", seq_num, count);
 					// WAL failed AFTER oracle.publish. Roll back the entries
 					// we stamped; the seq-match guard leaves concurrent
 					// overwriters untouched.
@@ -341,20 +383,32 @@ impl CommitPipeline {
 					// so a concurrent publish() can't dequeue and call
 					// complete(Ok) before our Err is set.
 					commit_batch.complete(Err(e.clone()));
+					#[cfg(surrealkv_verif)]
+					crate::verif::yieldp::yield_point("commit.fail_completed", seq_num, 0);
 					commit_batch.mark_applied();
+					#[cfg(surrealkv_verif)]
+					crate::verif::yieldp::yield_point("commit.marked", seq_num, 1);
 					// Release write_mutex before draining the queue.
 					drop(_guard);
+					#[cfg(surrealkv_verif)]
+					crate::verif::yieldp::yield_point("commit.unlocked", seq_num, 1);
 					self.publish();
+					#[cfg(surrealkv_verif)]
+					crate::verif::yieldp::yield_point("commit.published", seq_num, 1);
 					return Err(e);
 				}
 			}
 		};
 		// === END CRITICAL SECTION ===
+		#[cfg(surrealkv_verif)]
+		crate::verif::yieldp::yield_point("commit.unlocked", allocated_seq, 0);
 
 		// Memtable apply — OUTSIDE write_mutex. The next committer can already
 		// be inside the critical section. This restores the pipeline overlap
 		// that PR #378 destroyed.
 		let apply_result = self.env.apply(&processed_batch);
+		#[cfg(surrealkv_verif)]
+		crate::verif::yieldp::yield_point("commit.after_apply", allocated_seq, apply_result.is_err() as u64);
 
 		// =========================================================================
 		// Failure-path invariants
@@ -386,15 +440,21 @@ impl CommitPipeline {
 			// applied) batch and call complete(Ok) before our Err lands.
 			let err = Error::CommitFail(e.to_string());
 			commit_batch.complete(Err(err.clone()));
+			#[cfg(surrealkv_verif)]
+			crate::verif::yieldp::yield_point("commit.fail_completed", allocated_seq, 1);
 			Some(err)
 		} else {
 			None
 		};
 
 		commit_batch.mark_applied();
+		#[cfg(surrealkv_verif)]
+		crate::verif::yieldp::yield_point("commit.marked", allocated_seq, 0);
 
 		// Publish (multi-consumer) - MUST always run to drain queue
 		self.publish();
+		#[cfg(surrealkv_verif)]
+		crate::verif::yieldp::yield_point("commit.published", allocated_seq, 0);
 
 		if let Some(err) = apply_err {
 			return Err(err);
@@ -417,10 +477,16 @@ impl CommitPipeline {
 				Some(batch) => {
 					// Publish this batch's sequence number
 					let new_visible = batch.get_seq_num() + batch.count as u64 - 1;
+					#[cfg(surrealkv_verif)]
+					crate::verif::yieldp::yield_point("pub.deq", new_visible, batch.count as u64);
 
 					loop {
 						let current = self.visible_seq_num.load(Ordering::Acquire);
+						#[cfg(surrealkv_verif)]
+						crate::verif::yieldp::yield_point("vis.loaded", new_visible, current);
 						if new_visible <= current {
+							#[cfg(surrealkv_verif)]
+							crate::verif::yieldp::yield_point("vis.skip", new_visible, current);
 							// Already published by another thread
 							break;
 						}
@@ -435,14 +501,22 @@ impl CommitPipeline {
 							)
 							.is_ok()
 						{
+							#[cfg(surrealkv_verif)]
+							crate::verif::yieldp::yield_point("vis.cas_ok", new_visible, current);
 							break;
 						}
+						#[cfg(surrealkv_verif)]
+						crate::verif::yieldp::yield_point("vis.cas_fail", new_visible, current);
 					}
 
 					// Complete this batch
 					batch.complete(Ok(()));
+					#[cfg(surrealkv_verif)]
+					crate::verif::yieldp::yield_point("pub.completed", new_visible, 0);
 				}
 				None => {
+					#[cfg(surrealkv_verif)]
+					crate::verif::yieldp::yield_point("pub.exit", 0, 0);
 					// No more applied batches, done
 					break;
 				}
